@@ -239,20 +239,20 @@ theorem okBytes_all : ∀ (H : List Bytes) (a : FArm), a.failed = false → (far
 
 theorem armored_success (cfg : Cfg) (hp : ∀ b, (cfg.pieces b).flatten = b) (hb : 0 < cfg.bs) (hif : IndexFail cfg.pkt)
     (v : Version) (hv : cfg.v1shape = (v == v1)) (par : Armor.Params) (he : par.enc.WF) (hw : 0 < par.bytesPerWord)
-    (hdr ftr : Bytes) (sink : Stream.Sink) (headerBytes : Bytes) (ws : List Bytes)
-    (ha : (FArm.init par hdr ftr ({ sink := sink } : Wr)).1 = true)
-    (hi : (PSt.init FArm.write cfg.pieces (FArm.init par hdr ftr ({ sink := sink } : Wr)).2 headerBytes).1 = true)
+    (hdr ftr : Bytes) (sink : Stream.Sink) (part : List Nat) (headerBytes : Bytes) (ws : List Bytes)
+    (ha : (FArm.init par hdr ftr ({ sink := sink, part := part } : Wr)).1 = true)
+    (hi : (PSt.init FArm.write cfg.pieces (FArm.init par hdr ftr ({ sink := sink, part := part } : Wr)).2 headerBytes).1 = true)
     (hws : ∀ x ∈ (PSt.writes FArm.write cfg
-        (PSt.init FArm.write cfg.pieces (FArm.init par hdr ftr ({ sink := sink } : Wr)).2 headerBytes).2 ws).1, x.2 = none)
+        (PSt.init FArm.write cfg.pieces (FArm.init par hdr ftr ({ sink := sink, part := part } : Wr)).2 headerBytes).2 ws).1, x.2 = none)
     (hc : (armoredClose cfg (PSt.writes FArm.write cfg
-        (PSt.init FArm.write cfg.pieces (FArm.init par hdr ftr ({ sink := sink } : Wr)).2 headerBytes).2 ws).2).1 = none) :
+        (PSt.init FArm.write cfg.pieces (FArm.init par hdr ftr ({ sink := sink, part := part } : Wr)).2 headerBytes).2 ws).2).1 = none) :
     ∃ M, oneShot cfg v headerBytes ws.flatten = .ok M ∧
       (armoredClose cfg (PSt.writes FArm.write cfg
-        (PSt.init FArm.write cfg.pieces (FArm.init par hdr ftr ({ sink := sink } : Wr)).2 headerBytes).2 ws).2).2.codec.w.w.bytes =
+        (PSt.init FArm.write cfg.pieces (FArm.init par hdr ftr ({ sink := sink, part := part } : Wr)).2 headerBytes).2 ws).2).2.codec.w.w.bytes =
         Armor.sealText par hdr ftr M ∧
       (armoredClose cfg (PSt.writes FArm.write cfg
-        (PSt.init FArm.write cfg.pieces (FArm.init par hdr ftr ({ sink := sink } : Wr)).2 headerBytes).2 ws).2).2.codec.w.w.faults = 0 := by
-  generalize ha0 : (FArm.init par hdr ftr ({ sink := sink } : Wr)).2 = a0 at hi hws hc ⊢
+        (PSt.init FArm.write cfg.pieces (FArm.init par hdr ftr ({ sink := sink, part := part } : Wr)).2 headerBytes).2 ws).2).2.codec.w.w.faults = 0 := by
+  generalize ha0 : (FArm.init par hdr ftr ({ sink := sink, part := part } : Wr)).2 = a0 at hi hws hc ⊢
   have hπ := hist_proj a0
   have hnil : a0 = farmRun a0 [] := rfl
   -- the same run over the history writer
@@ -285,14 +285,14 @@ theorem armored_success (cfg : Cfg) (hp : ∀ b, (cfg.pieces b).flatten = b) (hb
       | false => simp at hc
       | true =>
         simp only
-        have hrun := (farm_run_close par he hw hdr ftr sink fin.codec.w ha).1
+        have hrun := (farm_run_close par he hw hdr ftr sink part fin.codec.w ha).1
         rw [ha0, hac] at hrun
         obtain ⟨hf0, hbytes⟩ := hrun rfl
         have hnf : (farmRun a0 fin.codec.w).failed = false := by
           cases hff : (farmRun a0 fin.codec.w).failed with
           | false => rfl
           | true => rw [farm_close_failed _ hff] at hac; cases hac
-        have ha0f : a0.failed = false := by rw [← ha0]; exact (farm_init_sim par hdr ftr sink ha).2.1
+        have ha0f : a0.failed = false := by rw [← ha0]; exact (farm_init_sim par hdr ftr sink part ha).2.1
         have hall := okBytes_all fin.codec.w a0 ha0f hnf
         refine ⟨headerPacket headerBytes ++ B, by simp [oneShot, hB], ?_, hf0⟩
         rw [hbytes, ← hall, ho]
